@@ -350,6 +350,7 @@ type FuncResult struct {
 	Errs  []string
 	Mode  string
 	Trusted []string
+	Replayable bool // inputs can be rebuilt from a solver model (see concretise.go)
 }
 
 var reNcalls = regexp.MustCompile(`ncalls\(([^()"]*(?:\([^()]*\))?[^()"]*)\)`)
@@ -553,6 +554,8 @@ func (E *Engine) VerifyFunc(p *packages.Package, pc *PkgContracts, c *FuncContra
 			env.names["$g:"+gv.Name] = Val{T: f.S.Zero(t), Typ: t}
 		}
 	}
+	f.replay = f.buildReplayInfo(decl, sig, env, lit != nil)
+	res.Replayable = f.replay != nil && f.replay.Why == ""
 	f.entry = env.clone()
 	scEntry := &specCtx{old: f.entry, pos: decl.Body.Lbrace, scope: decl.Body, pcs: pc}
 	// type invariants for atomic functions
